@@ -16,6 +16,12 @@
 (*                 the original each yield exactly the remaining items     *)
 (*                 (lengths, the further None: C05; frames, pulls: C04)    *)
 (*   clone         the signal is replaced by its clone: nothing changes    *)
+(*   drive         a program of Iterator methods (nth, size_hint, len,     *)
+(*                 count, last, fold, for_each, find, position, any, all,  *)
+(*                 collect, skip, step_by) on take / until_exhausted /     *)
+(*                 interleaved samples: each call = that many `next` calls *)
+(*                 (what it returns, the remaining count: C05; the item    *)
+(*                 values and the pulls after every call: C04)             *)
 (*   drop / resume a borrowed source continues at Pulls + 1 (C04), with    *)
 (*                 exact exhaustion flags and silence after its end (C05)  *)
 (* State per execution = (term and sources = the reset line, n outputs so  *)
@@ -25,6 +31,11 @@
 (* judgement is the same denotation; only the pull counter of a bare       *)
 (* source inside that region is known to stay 0.  An opaque source's       *)
 (* frames are those its twin delivered (reset line, o.twin).               *)
+(*                                                                         *)
+(* Both build profiles of the harness (debug; release = optimised, no     *)
+(* debug assertions, wrapping overflow) are judged by the same clauses:    *)
+(* nothing here depends on the profile (an execution whose arithmetic      *)
+(* leaves the domain of C03 is UNDEF in either).                           *)
 (*                                                                         *)
 (* IOEnv.SIG_PROP = "C04" | "C05" selects which group of conjuncts may     *)
 (* reject (default: both).  Output lines:                                  *)
@@ -163,6 +174,53 @@ JCollect ==
         sync  |-> lenOK,                     \* otherwise the position of the real signal is unknown
         n |-> n + cnt, rs |-> rs, gone |-> ~a.byref]
 
+\* `drive`: the consumer's iterator is driven by a program of Iterator methods (Signals!ItRet): every
+\* call returns what that many `next` calls would have -- Some / None, counts, len, size_hint, list
+\* lengths, an item that belongs at ANOTHER position of the stream: C05; the item / frame values and the
+\* pulls after every call: C04.  Same expectation in both build profiles.
+JDrive ==
+  LET a == Ev.a
+      c == a.consumer
+      ops == a.ops
+      NO == Len(ops)
+      finite == DLen(X, T) < Inf
+      wellformed == /\ c \in {"take", "ue", "il"} /\ (c # "take" => finite) /\ St = 0 /\ Raw = {}
+                    /\ \A i \in 1..NO : /\ (ops[i].op \in ItByValue => i = NO)
+                                        /\ (ops[i].op \in {"find", "position", "any", "all", "step_by"} => ops[i].k >= 1)
+                                        /\ (ops[i].op = "len" => c = "take")
+      cnt == IF c = "take" THEN a.n ELSE UeCount(X, T, n)                \* frames the root can deliver
+      items == IF c = "il" THEN IlItems(X, T, F, n) ELSE DenRange(X, T, F, n, cnt)
+      L == Len(items)
+      Pos[i \in 0..NO] == IF i = 0 THEN 0 ELSE ItPos(L, Pos[i - 1], ops[i].op, ops[i].k)
+      fin == ItFrames(c, Pos[NO], X.ch)                                  \* root frames pulled in the end
+      shaped == Ev.o.ok /\ Ev.r.k = "items" /\ Len(Ev.r.v) = NO /\ Len(Ev.o.steps) = NO
+      elsewhere(x, e) == x # e /\ \E i \in 1..L : items[i] = x        \* a real item, at the wrong place
+      ok05at(i) ==
+        LET op == ops[i].op  p == Pos[i - 1]  res == Ev.r.v[i]  e == ItRet(items, p, op, ops[i].k)
+        IN CASE op \in ItSingle -> res.k = e.k /\ (e.k = "some" => ~elsewhere(res.v, e.v))
+             [] op \in ItLists  -> /\ res.k = "items" /\ Len(res.v) = Len(e.v) /\ res.after = << FALSE, FALSE >>
+                                   /\ \A m \in 1..Len(e.v) : ~elsewhere(res.v[m], e.v[m])
+             [] op = "hint"     -> res.k = "hint" /\ ItHintOK(c = "take", L - p, res.lo, res.hi)
+             [] OTHER           -> res = e
+      ok04at(i) ==
+        LET op == ops[i].op  p == Pos[i - 1]  res == Ev.r.v[i]  e == ItRet(items, p, op, ops[i].k)
+        IN CASE op \in ItSingle -> (res.k = "some" /\ e.k = "some") => res.v = e.v
+             [] op \in ItLists  -> res.k = "items" => \A m \in 1..MinI(Len(res.v), Len(e.v)) : res.v[m] = e.v[m]
+             [] OTHER           -> TRUE
+      all05 == shaped /\ \A i \in 1..NO : ok05at(i)
+      vals04 == shaped /\ \A i \in 1..NO : ok04at(i)
+  IN IF ~wellformed \/ ~TwinOK(n + cnt) \/ a.cap < L
+       THEN [ok04 |-> TRUE, ok05 |-> TRUE, undef |-> TRUE, sync |-> TRUE, n |-> n, rs |-> rs, gone |-> TRUE]
+     ELSE
+       [ok04  |-> /\ vals04
+                  /\ (all05 => /\ \A i \in 1..NO : Ev.o.steps[i] = ExpPulls(n + ItFrames(c, Pos[i], X.ch), rs)
+                               /\ Ev.o.pulls = ExpPulls(n + fin, rs)
+                               /\ Ev.o.insp_calls = InspCount(n, fin)),
+        ok05  |-> all05,
+        undef |-> ~vals04 /\ \E i \in 1..cnt : ~DenDefined(X, T, F, n + i),
+        sync  |-> all05,                     \* otherwise the position of the real signal is unknown
+        n |-> n + fin, rs |-> rs, gone |-> ~a.byref]
+
 JResume ==
   LET j == Ev.a.src
       f == C.srcs[j].fmt
@@ -175,13 +233,14 @@ JResume ==
                /\ (k > SrcLen(X, j) => frameOK),
       undef |-> FALSE, sync |-> TRUE, n |-> n, rs |-> rs1, gone |-> TRUE]
 
-Known == \/ (~gone /\ Ev.ev \in {"next", "is_exhausted", "drop", "collect", "clone"})
+Known == \/ (~gone /\ Ev.ev \in {"next", "is_exhausted", "drop", "collect", "clone", "drive"})
          \/ (gone /\ Ev.ev = "resume")
 Judge == CASE Ev.ev = "next" -> JNext
            [] Ev.ev = "is_exhausted" -> JIsExh
            [] Ev.ev = "drop" -> JDrop
            [] Ev.ev = "clone" -> JClone
            [] Ev.ev = "collect" -> JCollect
+           [] Ev.ev = "drive" -> JDrive
            [] Ev.ev = "resume" -> JResume
 
 \* reset: the term was built (or is built later by `lift`), nothing has been pulled yet
